@@ -130,6 +130,9 @@ def make_value(kind, name, c):
         return v
     if k == "bool":
         return SymBool(z3.Bool(name))
+    if k == "float":
+        from .symfloat import fresh
+        return fresh(name)
     if k in ("bytes", "bytearray"):
         s = SymSeq(z3.Const(name, S.ISeq), k, (0, 256))
         return s
@@ -157,6 +160,10 @@ def model_value(model, v):
         return r.as_long() if z3.is_int_value(r) else None
     if isinstance(v, SymBool):
         return z3.is_true(model.eval(v.e, model_completion=True))
+    from .symfloat import SymFloat, model_float
+    if isinstance(v, SymFloat):
+        f = model_float(model, v)
+        return {"__float__": repr(f)}
     if isinstance(v, SymSeq):
         n = model.eval(z3.Length(v.e), model_completion=True).as_long()
         items = []
@@ -187,6 +194,8 @@ def unjson(v):
             return bytearray(x % 256 for x in v["__bytearray__"])
         if "__tuple__" in v:
             return tuple(v["__tuple__"])
+        if "__float__" in v:
+            return float(v["__float__"])
         if "__iter__" in v:
             s = unjson(v["__iter__"])
             return iter(s[v.get("pos", 0):])
@@ -898,6 +907,8 @@ def run_contract(contract, gridpoint, timeout_ms=10000, max_paths=4000, unwind=6
                         o["model"] = {k: model_value(model, v) for k, v in (inputs or {}).items()}
                         o["model_text"] = str(model)[:2000]
                         o["goal"] = str(goal)[:600]
+                        if info:
+                            o["info"] = info
                 elif st == "unknown":
                     if o["status"] == "proved":
                         o["status"] = "unknown"
